@@ -103,7 +103,7 @@ def parallel_rules(sl):
             d["clients"] = fresh_int("task%d_clients" % i, 1)
         tasks.append(d)
         tfs.append(tf)
-    cb = [None, "a", "b", "any", "zzz"][concrete(fresh_int("completed_by", 0, 4))]
+    cb = [None, "a", "b", "any", "zzz", ""][concrete(fresh_int("completed_by", 0, 5))]  # the empty string names no task either
     par = dict({"tasks": tasks}, **pf)
     if cb is not None:
         par["completed-by"] = cb
@@ -550,7 +550,7 @@ HARNESSES = [
             doc="timing rules and field fidelity of a sequential task"),
     Harness("parallel_rules", parallel_rules, "symbolic", _par_slices, reads=READS, assumptions=OUT,
             bounds={"parallel defaults": "every combination of the five fields, symbolic values", "tasks": "<=2 with the listed own fields",
-                    "completed-by": "absent / a / b / any / unknown", "names": "distinct or duplicate"},
+                    "completed-by": "absent / a / b / any / unknown / empty string", "names": "distinct or duplicate"},
             doc="inheritance from parallel, ramp-up rules, completed-by, duplicate names"),
     Harness("challenge_rules", challenge_rules, "bounded-exhaustive",
             lambda tier: [{"challenges": n, "layout": "challenges", "dups": d} for n in (1, 2, 3) for d in (False, True)] + [{"challenges": 1, "layout": "challenge"}],
